@@ -4,7 +4,7 @@ from fractions import Fraction as Fr
 import engine
 import streams
 from checks._propcommon import dumps_of, standard_programs
-from common import parse_q
+from common import parse_q, size
 
 THEOREMS = ["LNN.C17_range",
             "LNN.C17_aggregate_range",
@@ -80,7 +80,7 @@ def run(rep, tier, seed):
     rep.extra["exhaustive_space"] = "all (L,U) pairs on a grid containing 0, 1-alpha, 1/2, alpha, 1 and their 1/64-neighbours, alpha in {1,15/16,3/4,9/16}"
 
     # ---- range + contradiction on reachable states
-    n = 200 if tier == "quick" else 4000
+    n = size(tier, 200, 4000)
     progs = standard_programs(seed, n // 2, "interp") + standard_programs(seed + 31337, n - n // 2, "given", crossed_p=0.2)
     precs, first_dis = streams.run_prop_stream(rep, "prop-mixed", progs, FACETS)
     for r in precs:
